@@ -7,6 +7,7 @@ tier=${1:-quick}; SEED=${2:-20261004}
 export CARGO_NET_OFFLINE=true
 export RUSTFLAGS="--cfg jbonsai_verif"
 mkdir -p logs evidence/parts replays
+"$ROOT/tools/clean_shm.sh" 2>/dev/null
 ( cd sim && cargo build --release --offline ) >logs/build.c18.log 2>&1 || { echo "HARNESS-ERROR build failed"; grep -E "^error" -A 6 logs/build.c18.log | head -40; exit 2; }
 rc=0
 sim/target/release/jbsim w2 --tier "$tier" --seed "$SEED" --profile strict --evidence "$ROOT/evidence/C18.json" \
